@@ -84,6 +84,10 @@ deriving Repr, Inhabited, BEq
 /-- `to_python` of a *resolved* term (the caller resolves first, as `Variable.to_python`
     does through `get_value`). `'.'/2` becomes `[head] + to_python(tail)`; when the tail is not
     a list the Python `+` raises (`err`). Fuel bounds the term depth. -/
+def PyVal.isErr : PyVal → Bool
+  | .err => true
+  | _ => false
+
 def toPython : Nat → Term → PyVal
   | 0, _ => .err
   | _+1, .var _ => .none
@@ -92,11 +96,14 @@ def toPython : Nat → Term → PyVal
   | f+1, .fn g args =>
       if g = "." then
         match args with
-        | [h, t] =>
-          match toPython f t with
-          | .list xs => .list (toPython f h :: xs)
-          | _ => .err
-        | _ => .err     -- index error / wrong shape
-      else .tup g (args.map (toPython f))
+        | h :: t :: _ =>
+          match toPython f h, toPython f t with
+          | .err, _ => .err
+          | hv, .list xs => .list (hv :: xs)
+          | _, _ => .err       -- `[head] + to_python(tail)` raises unless the tail is a list
+        | _ => .err            -- IndexError
+      else
+        let vs := args.map (toPython f)
+        if vs.any PyVal.isErr then .err else .tup g vs
 
 end Yld
